@@ -386,10 +386,16 @@ func (p *parser) parseNotExpression(depth int) ast.Child {
 	}
 
 	var child ast.Child
-	if item := p.peek(); item.Typ == itemParenLeft {
+	switch item := p.peek(); item.Typ {
+	case itemParenLeft:
 		p.next() // consume paren
-		child = p.parsePermissionExpressions(itemParenRight, depth-1)
-	} else {
+		if rewrite := p.parsePermissionExpressions(itemParenRight, depth-1); rewrite != nil {
+			child = rewrite
+		}
+	case itemOperatorNot:
+		p.next() // consume operator
+		child = p.parseNotExpression(depth - 1)
+	default:
 		child = p.parsePermissionExpression()
 	}
 	if child == nil {
